@@ -3,6 +3,7 @@
     Spec/C01Spec.v, proofs in Proofs/C01_*.v. *)
 From InvokeVerif Require Import Corr.C01Corr Proofs.C01_witness Proofs.C01_steps Proofs.C01_occ
      Proofs.C01_roundtrip Proofs.C01_final Model.SigToCtx Proofs.C01_sig_bridge.
+From InvokeVerif Require Proofs.C01_wide_final.
 
 (** The round trip, proved part.  [simple_guard cs ic inv]: the parser is
     well-formed ([parser_ok]: named tasks, distinct names/aliases), the initial
@@ -34,6 +35,42 @@ Theorem C01_spell_roundtrip_partial : forall cs ic inv,
     map obs_of_ctx (tl (pr_ctxs r)) = expected cs inv /\
     pr_unparsed r = [] /\ pr_remainder r = "".
 Proof. exact spell_roundtrip_simple. Qed.
+
+(** The wider proved fragment (composition of Proofs/C01_generic2.v instantiated
+    in Proofs/C01_wide_final.v).  [guard_wide]: tasks MAY have required
+    positionals (all must be supplied), counters start from an int/bool default;
+    every item is one occurrence in one of the forms
+        --flag | --no-flag | --name value | --name=value | -n value | -n=value   (as above)
+        -nvalue                        (value glued to a short flag: plain, non-empty, no "=")
+        -v -v ... | -vvv               (counters, repeated or stacked)
+        value                          (the first still-missing required positional, by position)
+        --opt value | --opt=value      (optional-value flag WITH its value: plain, not a task
+                                        name, no positional missing, not given before).
+    Still MISSING: clusters of short booleans, bare optional-value flags,
+    dash-leading values; and the two findings. *)
+Theorem C01_spell_roundtrip_partial_wide : forall cs ic inv,
+  parser_ok cs = true -> C01_wide_final.guard_wide cs ic inv = true ->
+  exists r, parser_parse cs (Some ic) false (spell cs inv) = Ok r /\
+            hd_error (pr_ctxs r) = Some (init_ctx ic) /\
+            map obs_of_ctx (tl (pr_ctxs r)) = expected cs inv /\
+            pr_unparsed r = [] /\ pr_remainder r = "".
+Proof. exact C01_wide_final.spell_roundtrip_wide. Qed.
+
+(** Non-vacuity of the wide guard: a two-call chain with an alias, a stacked
+    counter, a glued value, an inverse flag, a positional by position, an
+    optional-value flag with value, a spaced value and a repeated list flag. *)
+Example C01_wide_guard_inhabited :
+  parser_ok [C01_wide_final.ex_build; C01_wide_final.ex_test] = true /\
+  C01_wide_final.guard_wide [C01_wide_final.ex_build; C01_wide_final.ex_test] core_ctx
+                            C01_wide_final.ex_inv = true /\
+  spell [C01_wide_final.ex_build; C01_wide_final.ex_test] C01_wide_final.ex_inv =
+    ["b"; "-vv"; "-j4"; "--no-clean"; "thing"; "--log=f"; "--out-dir"; "y";
+     "test"; "-e"; "a"; "--fast"; "--exclude=b"] /\
+  expected [C01_wide_final.ex_build; C01_wide_final.ex_test] C01_wide_final.ex_inv =
+    [(Some "build", [("name", AStr "thing"); ("verbose", AInt 2); ("out_dir", AStr "y");
+                     ("clean", ABool false); ("log", AStr "f"); ("jobs", AInt 4)]);
+     (Some "test", [("exclude", AList ["a"; "b"]); ("fast", ABool true)])].
+Proof. exact C01_wide_final.wide_example. Qed.
 
 (** The same in the flagship shape: on the fragment, the model satisfies the
     executable specification (with the real core context as initial context). *)
